@@ -1,4 +1,5 @@
 import PsModel.Lemmas.C19
+import PsModel.Model.C19Sched
 /-!
 # C19 – property theorems (kernel framing, authentication, reply correlation)
 
@@ -149,5 +150,50 @@ theorem C19_reply_count (run : Nat → CellResult) (s : KState) (r : Request) (h
 
 /-- non-vacuity: a concrete two-frame message with a long frame, delivered in three chunks -/
 example : flatRes (recvMultipart [[1, 2, 7], [9, 0], [0], [5, 5]]) = .ok ([[7, 9], []], [5, 5]) := by rfl
+
+/-! ## (d) replies and broadcasts carry their own request's header under EVERY interleaving of connections -/
+
+theorem step_correlated (s : SchedState) (i : Nat) (h : ∀ m ∈ s.out, m.1 = m.2) :
+    ∀ m ∈ (step true s i).out, m.1 = m.2 := by
+  unfold step
+  cases hi : s.acts[i]? with
+  | none => simpa using h
+  | some a =>
+    simp only [stepAct]
+    split
+    · simpa using h
+    · split
+      · intro m hm
+        simp only [List.mem_append, List.mem_singleton] at hm
+        rcases hm with hm | hm
+        · exact h m hm
+        · subst hm; simp
+      · simpa using h
+
+/-- **Correlation for every schedule.**  Whatever the activations are (any number of connections and requests, any number
+of sends each) and in whatever order the scheduler lets them proceed, every message sent carries the header of the
+request whose activation sent it – because each send names its own request's header. -/
+theorem C19_correlated_any_schedule (acts : List Activation) (sched : List Nat) :
+    ∀ m ∈ (run true { acts := acts } sched).out, m.1 = m.2 := by
+  have key : ∀ (sched : List Nat) (s : SchedState), (∀ m ∈ s.out, m.1 = m.2) → ∀ m ∈ (run true s sched).out, m.1 = m.2 := by
+    intro sched
+    induction sched with
+    | nil => intro s h; simpa [run] using h
+    | cons i rest ih =>
+      intro s h
+      simp only [run, List.foldl_cons]
+      exact ih (step true s i) (step_correlated s i h)
+  exact key sched { acts := acts } (by simp)
+
+/-- the code as it is has that shape (the flag is extracted from `Kernel.shell_handler` / `Kernel.send` on every run) -/
+theorem C19_correlated_current (acts : List Activation) (sched : List Nat) :
+    Current.explicitParent = true ∧ ∀ m ∈ (run Current.explicitParent { acts := acts } sched).out, m.1 = m.2 :=
+  ⟨rfl, C19_correlated_any_schedule acts sched⟩
+
+/-- with the shared field instead, two interleaved activations are enough to mis-attribute a reply: activation 7 stores the
+field, activation 9 stores it, activation 7 sends -/
+theorem C19_regress_shared_parent :
+    (run false { acts := [{ id := 7, sends := 2 }, { id := 9, sends := 1 }] } [0, 1, 0]).out = [(7, 9)] ∧
+    (run true { acts := [{ id := 7, sends := 2 }, { id := 9, sends := 1 }] } [0, 1, 0]).out = [(7, 7)] := by decide
 
 end PsModel.C19
